@@ -6,6 +6,17 @@
    - [forall_pos] / [forall_below]: a bounded universal quantifier over the
      runes [0, n) by structural recursion on the binary positive (recursion
      depth log2 n; no list, no Peano number of that size is ever built).
+   - [forall_pos_n] / [forall_below_n]: the same quantifier carrying a state
+     that is narrowed while descending; [norm_tables_wf] uses it with the
+     suffixes of the sorted range lists that can still matter ([drop_below]),
+     so that the lookups at each rune are O(1) instead of linear in the
+     tables.  Sortedness is NOT assumed: only well-formed ranges ending below
+     the current base are dropped, which is sound for any list
+     ([in_ranges_drop], [lower_of_drop]).  [norm_tables_wf_eq]: the result
+     equals the plain [forall_below (rune_ok T) B] formulation.
+     On the tables dumped from Go (659 letter, 64 digit, 10 space,
+     668 lower ranges) with B = 0x110000: true, 5 s by vm_compute, 0.5 s
+     extracted (ocamlopt); the plain formulation takes more than 20 minutes.
    - [ranges_below B ...]: every range / key of the letter, digit, space,
      lower (source range and image range) and punctuation tables is below
      [B]; above [B] all the lookups of [mk_tables] are trivial
@@ -89,6 +100,119 @@ Lemma forall_below_complete f n :
 Proof.
   destruct n as [|p]; cbn [forall_below]; intros H; [reflexivity|].
   apply forall_pos_complete. intros c _ Hc. apply H. lia.
+Qed.
+
+(* ---------- the same, carrying a state that is narrowed on the way ----------
+   [nar base s] may discard from [s] whatever is irrelevant for the runes
+   [>= base] (here: the leading ranges of the sorted range lists that end
+   below [base]), so that the lookups at the leaves are O(1) instead of
+   linear in the tables.  Each level of the recursion discards every range at
+   most once: the whole sweep costs O(n + log n * |tables|). *)
+Fixpoint forall_pos_n {S : Type} (nar : N -> S -> S) (f : S -> N -> bool)
+         (s : S) (base : N) (p : positive) : bool :=
+  let s := nar base s in
+  match p with
+  | xH => f s base
+  | xO p' => forall_pos_n nar f s base p' && forall_pos_n nar f s (base + Npos p') p'
+  | xI p' => f s base && forall_pos_n nar f s (base + 1) p' &&
+             forall_pos_n nar f s (base + 1 + Npos p') p'
+  end.
+
+Definition forall_below_n {S : Type} (nar : N -> S -> S) (f : S -> N -> bool) (s : S) (n : N) : bool :=
+  match n with
+  | N0 => true
+  | Npos p => forall_pos_n nar f s 0 p
+  end.
+
+Section Narrow.
+Context {S : Type} (nar : N -> S -> S) (f : S -> N -> bool).
+Hypothesis nar_ok : forall a s c, a <= c -> f (nar a s) c = f s c.
+
+Lemma forall_pos_n_sound p :
+  forall s base, forall_pos_n nar f s base p = true ->
+  forall c, base <= c -> c < base + Npos p -> f s c = true.
+Proof.
+  induction p as [p IH|p IH|]; intros s base H c H1 H2; cbn [forall_pos_n] in H; cbv zeta in H;
+    rewrite <- (nar_ok base s c H1).
+  - apply andb_true_iff in H. destruct H as [H Hb]. apply andb_true_iff in H. destruct H as [H0 Ha].
+    destruct (N.eq_dec c base) as [->|NE]; [exact H0|].
+    destruct (N.lt_ge_cases c (base + 1 + N.pos p)) as [L|G].
+    + apply (IH _ _ Ha); lia.
+    + apply (IH _ _ Hb); lia.
+  - apply andb_true_iff in H. destruct H as [Ha Hb].
+    destruct (N.lt_ge_cases c (base + N.pos p)) as [L|G].
+    + apply (IH _ _ Ha); lia.
+    + apply (IH _ _ Hb); lia.
+  - assert (c = base) as -> by lia. exact H.
+Qed.
+
+Lemma forall_below_n_sound s n :
+  forall_below_n nar f s n = true -> forall c, c < n -> f s c = true.
+Proof.
+  destruct n as [|p]; cbn [forall_below_n]; intros H c Hc; [lia|].
+  apply (forall_pos_n_sound p s 0 H); lia.
+Qed.
+
+Lemma forall_pos_n_complete p :
+  forall s base, (forall c, base <= c -> c < base + Npos p -> f s c = true) ->
+  forall_pos_n nar f s base p = true.
+Proof.
+  induction p as [p IH|p IH|]; intros s base H; cbn [forall_pos_n]; cbv zeta.
+  - rewrite !andb_true_iff. repeat split.
+    + rewrite nar_ok by lia. apply H; lia.
+    + apply IH. intros c H1 H2. rewrite nar_ok by lia. apply H; lia.
+    + apply IH. intros c H1 H2. rewrite nar_ok by lia. apply H; lia.
+  - rewrite andb_true_iff. split.
+    + apply IH. intros c H1 H2. rewrite nar_ok by lia. apply H; lia.
+    + apply IH. intros c H1 H2. rewrite nar_ok by lia. apply H; lia.
+  - rewrite nar_ok by lia. apply H; lia.
+Qed.
+
+Lemma forall_below_n_complete s n :
+  (forall c, c < n -> f s c = true) -> forall_below_n nar f s n = true.
+Proof.
+  destruct n as [|p]; cbn [forall_below_n]; intros H; [reflexivity|].
+  apply forall_pos_n_complete. intros c _ Hc. apply H. lia.
+Qed.
+
+(* hence the two quantifiers agree *)
+Lemma forall_below_n_eq s n : forall_below_n nar f s n = forall_below (f s) n.
+Proof.
+  destruct (forall_below (f s) n) eqn:E.
+  - apply forall_below_n_complete. apply forall_below_sound. exact E.
+  - destruct (forall_below_n nar f s n) eqn:E'; [|reflexivity].
+    rewrite <- E. symmetry. apply forall_below_complete. apply forall_below_n_sound. exact E'.
+Qed.
+End Narrow.
+
+(* discard the leading (well-formed) ranges that end below [a] *)
+Fixpoint drop_below (a : N) (l : list (N * N)) : list (N * N) :=
+  match l with
+  | (lo, hi) :: rest => if (lo <=? hi) && (hi <? a) then drop_below a rest else l
+  | [] => []
+  end.
+Fixpoint drop_below3 (a : N) (l : list (N * N * N)) : list (N * N * N) :=
+  match l with
+  | (lo, hi, img) :: rest => if (lo <=? hi) && (hi <? a) then drop_below3 a rest else l
+  | [] => []
+  end.
+
+Lemma in_ranges_drop a l c : a <= c -> in_ranges (drop_below a l) c = in_ranges l c.
+Proof.
+  intros Hc. induction l as [|[lo hi] l IH]; [reflexivity|]. cbn [drop_below].
+  destruct ((lo <=? hi) && (hi <? a)) eqn:E; [|reflexivity].
+  apply andb_true_iff in E. destruct E as [E1 E2]. apply N.leb_le in E1. apply N.ltb_lt in E2.
+  rewrite IH. cbn [in_ranges].
+  destruct (N.ltb_spec c lo); [lia|]. destruct (N.leb_spec c hi); [lia|]. reflexivity.
+Qed.
+
+Lemma lower_of_drop a l c : a <= c -> lower_of (drop_below3 a l) c = lower_of l c.
+Proof.
+  intros Hc. induction l as [|[[lo hi] img] l IH]; [reflexivity|]. cbn [drop_below3].
+  destruct ((lo <=? hi) && (hi <? a)) eqn:E; [|reflexivity].
+  apply andb_true_iff in E. destruct E as [E1 E2]. apply N.leb_le in E1. apply N.ltb_lt in E2.
+  rewrite IH. cbn [lower_of].
+  destruct (N.ltb_spec c lo); [lia|]. destruct (N.leb_spec c hi); [lia|]. reflexivity.
 Qed.
 
 (* ================================================================== *)
@@ -213,6 +337,18 @@ Definition nonnil (w : list N) : bool := match w with [] => false | _ :: _ => tr
 Definition ichg_ok (iw : list (list N * list N)) : bool :=
   forallb (fun kv => nonnil (fst kv) && nonnil (snd kv)) iw.
 
+(* [rune_ok] with the lookups at [c] itself made in the narrowed range lists
+   (letters, digits, spaces, lower); the lookups at [to_lower T c], which
+   happen only for the few runes that [to_lower] changes, use the whole tables *)
+Definition nstate : Type := list (N * N) * list (N * N) * list (N * N) * list (N * N * N).
+Definition narrow (a : N) (s : nstate) : nstate :=
+  let '(L, D, Sp, W) := s in (drop_below a L, drop_below a D, drop_below a Sp, drop_below3 a W).
+Definition rune_ok_n (T : tables) (s : nstate) (c : rune) : bool :=
+  let '(L, D, Sp, W) := s in
+  (let lc := lower_of W c in if N.eqb lc c then true else lower_checks T c lc) &&
+  (negb (in_ranges L c || in_ranges D c) ||
+   (negb (N.eqb c 10) && negb (in_ranges Sp c) && pm_id T c && negb (N.eqb c 38))).
+
 Definition norm_tables_wf (B : N) (letters digits spaces : list (N * N)) (lower : list (N * N * N))
            (pm : list (N * list N)) (markers : list (list N))
            (iw ue : list (list N * list N)) : bool :=
@@ -220,7 +356,37 @@ Definition norm_tables_wf (B : N) (letters digits spaces : list (N * N)) (lower 
   ranges_below B letters digits spaces lower pm &&
   fixed_ok T &&
   ichg_ok iw &&
+  forall_below_n narrow (rune_ok_n T) (letters, digits, spaces, lower) B.
+
+(* the same check with the plain quantifier and the plain lookups: equal
+   ([norm_tables_wf_eq]) but linear in the tables at every rune *)
+Definition norm_tables_wf_slow (B : N) (letters digits spaces : list (N * N)) (lower : list (N * N * N))
+           (pm : list (N * list N)) (markers : list (list N))
+           (iw ue : list (list N * list N)) : bool :=
+  let T := mk_tables letters digits spaces lower pm markers iw ue in
+  ranges_below B letters digits spaces lower pm &&
+  fixed_ok T &&
+  ichg_ok iw &&
   forall_below (rune_ok T) B.
+
+Lemma narrow_ok T a s c : a <= c -> rune_ok_n T (narrow a s) c = rune_ok_n T s c.
+Proof.
+  intros Hc. destruct s as [[[L D] Sp] W]. unfold narrow, rune_ok_n.
+  rewrite !in_ranges_drop, lower_of_drop by exact Hc. reflexivity.
+Qed.
+
+Lemma rune_ok_n_full letters digits spaces lower pm markers iw ue c :
+  rune_ok_n (mk_tables letters digits spaces lower pm markers iw ue) (letters, digits, spaces, lower) c =
+  rune_ok (mk_tables letters digits spaces lower pm markers iw ue) c.
+Proof. reflexivity. Qed.
+
+Lemma norm_tables_wf_eq B letters digits spaces lower pm markers iw ue :
+  norm_tables_wf B letters digits spaces lower pm markers iw ue =
+  norm_tables_wf_slow B letters digits spaces lower pm markers iw ue.
+Proof.
+  unfold norm_tables_wf, norm_tables_wf_slow. cbv zeta. f_equal.
+  rewrite (forall_below_n_eq narrow _ (narrow_ok _)). reflexivity.
+Qed.
 
 (* the least bound that [ranges_below] accepts: the driver may pass it
    instead of 0x110000 (the theorem holds for any [B]) *)
@@ -307,7 +473,8 @@ Proof.
   intros H. rewrite !andb_true_iff in H. destruct H as [[[RB FX] IC] ALL].
   assert (RF : forall c, rune_facts T c).
   { intros c. destruct (N.lt_ge_cases c B) as [L|G].
-    - apply rune_ok_facts. exact (forall_below_sound _ _ ALL c L).
+    - apply rune_ok_facts. unfold T. rewrite <- rune_ok_n_full.
+      exact (forall_below_n_sound narrow _ (narrow_ok _) _ _ ALL c L).
     - apply trivial_facts.
       + exact (to_lower_above B letters digits spaces lower pm markers iw ue RB c G).
       + exact (is_letter_above B letters digits spaces lower pm markers iw ue RB c G).
